@@ -11,6 +11,7 @@ import (
 
 	"github.com/uber/kraken/core"
 	"github.com/uber/kraken/origin/blobclient"
+	"github.com/uber/kraken/utils/httputil"
 	"github.com/uber/kraken/utils/stringset"
 	"github.com/uber/kraken/utils/verifh"
 )
@@ -49,6 +50,10 @@ func (c *c25Client) Locations(d core.Digest) ([]string, error) {
 		// an unreachable host: the real client against a closed port
 		return blobclient.New(c25DeadAddr).Locations(d)
 	}
+	if st := c.p.status[c.addr]; st != 0 {
+		// the origin answers with an HTTP error status (retryable: 429 / 502 / 503 / 504, or not: 404 / 500)
+		return nil, httputil.StatusError{Method: "GET", URL: "http://" + c.addr + "/blobs/x/locations", Status: st}
+	}
 	if c.p.ok[c.addr] {
 		if c.p.replicas != nil {
 			return append([]string(nil), c.p.replicas...), nil
@@ -77,6 +82,7 @@ func (c *c25Client) PrefetchBlob(namespace string, d core.Digest) error       { 
 func (c *c25Client) CheckReadiness() error                                     { return c.note() }
 
 type c25Provider struct {
+	status    map[string]int  // hosts that answer with this HTTP error status
 	netErr    map[string]bool // hosts that are unreachable (network error) rather than answering with an error status
 	ok        map[string]bool
 	contacted []string
@@ -101,12 +107,14 @@ func c25Exec(t *verifh.T, c verifh.Case) {
 		for _, h := range verifh.Unlist(op[2]) {
 			hosts = append(hosts, h) // host tokens are used verbatim as addresses
 		}
-		p := &c25Provider{ok: map[string]bool{}, netErr: map[string]bool{}}
+		p := &c25Provider{ok: map[string]bool{}, netErr: map[string]bool{}, status: map[string]int{}}
 		for _, e := range verifh.Unlist(op[3]) {
 			if i := strings.LastIndex(e, "="); i >= 0 && e[i+1:] == "o" {
 				p.ok[e[:i]] = true
 			} else if i >= 0 && e[i+1:] == "n" {
 				p.netErr[e[:i]] = true
+			} else if i >= 0 && (e[i+1:] == "r" || e[i+1:] == "f") {
+				p.status[e[:i]] = c25Status(e[:i], e[i+1:])
 			}
 		}
 		var locs []string
@@ -144,7 +152,7 @@ func c25Exec(t *verifh.T, c verifh.Case) {
 //   bloc one request <method> <hosts> <host=o|e,…> <replicas> <replica=o|e,…> => <ok|err|empty> <lookup hosts> <replicas contacted>
 func c25Request(t *verifh.T, d core.Digest, op []string) {
 	hosts := verifh.Unlist(op[3])
-	p := &c25Provider{ok: map[string]bool{}, netErr: map[string]bool{}, replicaOK: map[string]bool{}, replicas: verifh.Unlist(op[5])}
+	p := &c25Provider{ok: map[string]bool{}, netErr: map[string]bool{}, status: map[string]int{}, replicaOK: map[string]bool{}, replicas: verifh.Unlist(op[5])}
 	if p.replicas == nil {
 		p.replicas = []string{}
 	}
@@ -153,6 +161,8 @@ func c25Request(t *verifh.T, d core.Digest, op []string) {
 			p.ok[e[:i]] = true
 		} else if i >= 0 && e[i+1:] == "n" {
 			p.netErr[e[:i]] = true
+		} else if i >= 0 && (e[i+1:] == "r" || e[i+1:] == "f") {
+			p.status[e[:i]] = c25Status(e[:i], e[i+1:])
 		}
 	}
 	for _, e := range verifh.Unlist(op[6]) {
@@ -213,6 +223,18 @@ func c25RequestCase(method string, k int, okMask uint64, nrep int, repMask uint6
 	return c
 }
 
+// c25Status: the HTTP status a host with outcome r (retryable) or f (not retryable) answers with; it varies with the host
+func c25Status(host, kind string) int {
+	n := 0
+	for _, c := range host {
+		n += int(c)
+	}
+	if kind == "r" {
+		return []int{429, 502, 503, 504}[n%4]
+	}
+	return []int{404, 500}[n%2]
+}
+
 // c25Case3: every host's outcome is one of o (answers), e (error status), n (unreachable: network error)
 func c25Case3(kind string, outs string, k int) verifh.Case {
 	var hosts, os []string
@@ -271,6 +293,35 @@ func TestVerif_C25Locations(t *testing.T) {
 			}
 			c25Exec(tr, c25Case3("locations", outs, k))
 			tr.Count("exhaustive_patterns_with_network_errors", 1)
+		}
+	}
+	// HTTP error statuses, retryable (r) and not (f): every pattern over {o, r, f, n} for up to 5 hosts (6 thorough),
+	// through Locations, ClientResolver.Resolve and a whole cluster-client request
+	for k := 1; k <= verifh.Scale(5, 6); k++ {
+		n := 1
+		for i := 0; i < k; i++ {
+			n *= 4
+		}
+		for m := 0; m < n; m++ {
+			outs := ""
+			for x, i := m, 0; i < k; i++ {
+				outs += string("orfn"[x%4])
+				x /= 4
+			}
+			c25Exec(tr, c25Case3("resolve", outs, k))
+			if m%3 == 0 {
+				c25Exec(tr, c25Case3("locations", outs, k))
+			}
+			tr.Count("exhaustive_patterns_with_http_statuses", 1)
+		}
+	}
+	for k := 1; k <= 40; k++ {
+		for _, outs := range []string{"r", "rrro", "rf", "nr", "rrrf"} {
+			c25Exec(tr, c25Case3("resolve", outs, k))
+			rc := c25RequestCase("Stat", k, 0, 2, 3, false)
+			rc.Ops[0][4] = strings.ReplaceAll(rc.Ops[0][4], "=e", "="+string(outs[k%len(outs)]))
+			c25Exec(tr, rc)
+			tr.Count("size_sweep_http_statuses", 2)
 		}
 	}
 	for k := 1; k <= 40; k++ {
